@@ -36,11 +36,14 @@ def run(ctx):
     cb = res.clause('C19.b', 'R-CONTAIN', 'failing tuner isolated; routine is not a generator', floor=3)
     cc = res.clause('C19.c', 'R-PROV', 'explicit ids grouped by the cassette\'s category extraction, each once, deterministic order', floor=2)
     cd = res.clause('C19.d', 'R-PROV', 'lookup receives this category; explicit ids passed as given', floor=2)
-    pc = st.lookup('_play_category')
     play = st.lookup('play')
-    grp = st.lookup('_group_recording_ids_by_categories')
-    if pc is None or play is None or grp is None:
-        raise AnalysisError('anchor-lost studio methods')
+    pcs = [m for m in st.methods.values() if any(isinstance(n, ast.Call) and isinstance(n.func, ast.Attribute) and n.func.attr == 'create_category_tuning'
+                                                 for n in ast.walk(m.node))]
+    grps = [m for m in st.methods.values() if m is not play and any(
+        isinstance(n, ast.Call) and isinstance(n.func, ast.Attribute) and n.func.attr == 'extract_recording_category' for n in ast.walk(m.node))]
+    if play is None or len(pcs) != 1 or len(grps) != 1:
+        raise AnalysisError('anchor-lost studio methods (per-category routine / grouping routine)')
+    pc, grp = pcs[0], grps[0]
     cat = pc.params[1]
     ids_p = pc.params[2]
     # tuning local
